@@ -5,3 +5,6 @@ import clienttypes "github.com/teleport-network/teleport/x/xibc/core/client/type
 func c08Client(head clienttypes.Height, contract []byte) ClientState {
 	return ClientState{Header: Header{Height: head}, ContractAddress: contract, BlockDelay: rtU64("blockDelay")}
 }
+
+// c08RequiredConfirmations: for an Ethereum counterparty the confirmation depth is the configured BlockDelay of the client state.
+func c08RequiredConfirmations(cs ClientState) uint64 { return cs.BlockDelay }
